@@ -116,6 +116,16 @@ theorem C10_rejected_no_trace (key : Batch → Nat) (cfg : Cfg) (s : St) (op : O
   | crashNext _ _ => simp [Op.plain] at hp
   | restartMax _ => simp [Op.plain] at hp
   | fail _ _ => simp [Op.plain] at hp
+  | submitCtx c id b =>
+    rcases submitF_cases key cfg s id b with ⟨o, h, _⟩ | ⟨h, _⟩ | ⟨h, _⟩
+    · simp [step, h]
+    · simp [step, h, Out.refused] at hr
+    · simp [step, h, Out.refused] at hr
+  | nextCtx c id =>
+    rcases getNextF_cases key cfg s id with ⟨o, h, _⟩ | ⟨b, r, h, _⟩ | ⟨b, r, h, _⟩
+    · simp [step, h]
+    · simp [step, h, Out.refused] at hr
+    · simp [step, h, Out.refused] at hr
 
 /-- … and when the process dies during a refused operation the datastore is still unchanged. -/
 theorem C10_rejected_no_durable_trace (key : Batch → Nat) (cfg : Cfg) (s : St) (op : Op)
@@ -143,6 +153,8 @@ theorem C10_rejected_no_durable_trace (key : Batch → Nat) (cfg : Cfg) (s : St)
   | add b => rw [C10_rejected_no_trace key cfg s _ rfl hr]
   | next id => rw [C10_rejected_no_trace key cfg s _ rfl hr]
   | qnext => rw [C10_rejected_no_trace key cfg s _ rfl hr]
+  | submitCtx c id b => rw [C10_rejected_no_trace key cfg s _ rfl hr]
+  | nextCtx c id => rw [C10_rejected_no_trace key cfg s _ rfl hr]
 
 /-- A submission whose datastore `Put` failed (`err:store`; datastore errors are outside the property's
 quantifier, modelled for the correspondence) changes neither memory nor the datastore: the batch is not
@@ -177,12 +189,86 @@ theorem C10_store_error_no_trace (key : Batch → Nat) (cfg : Cfg) (s : St) (op 
   | crashNext _ _ => simp [Op.plain] at hp
   | restartMax _ => simp [Op.plain] at hp
   | fail _ _ => simp [Op.plain] at hp
+  | submitCtx c id b =>
+    rcases submitF_cases key cfg s id b with ⟨o, h, ho⟩ | ⟨h, _, hf⟩ | ⟨h, _⟩
+    · rcases ho with rfl | rfl | rfl <;> simp [step, h] at hr
+    · simp [step, h, putFailed, hf]
+    · simp [step, h] at hr
+  | nextCtx c id =>
+    rcases getNextF_cases key cfg s id with ⟨o, h, ho⟩ | ⟨b, r, h, _⟩ | ⟨b, r, h, _⟩
+    · rcases ho with rfl | rfl <;> simp [step, h] at hr
+    · simp [step, h] at hr
+    · simp [step, h] at hr
 
 /-- non-vacuity: the three refusals on a non-trivial state -/
 example :
     let s : St := (run realKey cfg2 [.submit [7] a1, .submit [7] a2]).st
     (step realKey cfg2 s (.submit [7] a3)) = (s, .errFull) ∧ (step realKey cfg2 s (.submit [8] a3)) = (s, .errId) ∧
     (step realKey cfg2 s (.submit [7] [])) = (s, .skipEmpty) ∧ s.disk.length = 2 := by decide +kernel
+
+/-! ## 2b. the context a call is made with (`next … ctx=cancelled|expired`, `submit … ctx=…`)
+
+Neither `SubmitBatchTxs` / `GetNextBatch` nor `AddBatch` / `Next` look at their `context.Context` (it is only passed on
+to the datastore).  That is what the property needs: `Next` pops and deletes, so a call that noticed a dead context
+*afterwards* and answered with an error would lose the head batch. -/
+
+/-- The answer and the state after a call do not depend on the context it is made with: a call with a cancelled or
+expired context is the same step as the call with a live one – so every theorem of this file (stated for every
+`List Op`, the `…Ctx` operations included) covers cancelled calls, and a call never answers an error after having
+taken a batch out of the queue. -/
+theorem C10_context_irrelevant (key : Batch → Nat) (cfg : Cfg) (s : St) (c : Ctx) (id : Bytes) (b : Batch) :
+    step key cfg s (.submitCtx c id b) = step key cfg s (.submit id b) ∧
+    step key cfg s (.nextCtx c id) = step key cfg s (.next id) ∧
+    (∀ o, acceptedBy (.submitCtx c id b) o = acceptedBy (.submit id b) o) ∧
+    (∀ o, deliveredBy (.nextCtx c id) o = deliveredBy (.next id) o ∧ removedBy (.nextCtx c id) o = removedBy (.next id) o) :=
+  ⟨rfl, rfl, fun o => by cases o <;> rfl, fun o => by cases o <;> exact ⟨rfl, rfl⟩⟩
+
+/-- Whatever the context: a request that takes a batch out of the queue answers with that batch (never with an error). -/
+theorem C10_removed_is_answered (key : Batch → Nat) (cfg : Cfg) (s : St) (op : Op) (hp : op.plain = true)
+    (hm : (step key cfg s op).1.mem ≠ s.mem) (ha : acceptedBy op (step key cfg s op).2 = []) :
+    ∃ b r, s.mem = b :: r ∧ (step key cfg s op).2 = .batch b ∧ (step key cfg s op).1.mem = r := by
+  have nx : ∀ id, (getNextF key cfg s id).1.mem ≠ s.mem →
+      ∃ b r, s.mem = b :: r ∧ (getNextF key cfg s id).2 = .batch b ∧ (getNextF key cfg s id).1.mem = r := by
+    intro id h
+    rcases getNextF_cases key cfg s id with ⟨o, h1, _⟩ | ⟨b, r, h1, hmem, _⟩ | ⟨b, r, h1, hmem, _⟩
+    · rw [h1] at h; exact absurd rfl h
+    · exact ⟨b, r, hmem, by rw [h1], by rw [h1]; rfl⟩
+    · exact ⟨b, r, hmem, by rw [h1], by rw [h1]; rfl⟩
+  have sb : ∀ id b, okList b (submitF key cfg s id b).2 = [] → (submitF key cfg s id b).1.mem = s.mem := by
+    intro id b h
+    rcases submitF_cases key cfg s id b with ⟨o, h1, _⟩ | ⟨h1, _⟩ | ⟨h1, _⟩
+    · rw [h1]
+    · rw [h1]; rfl
+    · rw [h1] at h; simp [okList] at h
+  cases op with
+  | next id => exact nx id hm
+  | nextCtx c id => exact nx id hm
+  | qnext =>
+    rcases nextBatchF_cases key s with ⟨h1, _⟩ | ⟨b, r, h1, hmem, _⟩ | ⟨b, r, h1, hmem, _⟩
+    · simp only [step, h1] at hm; exact absurd rfl hm
+    · exact ⟨b, r, hmem, by simp [step, h1], by simp [step, h1, pop]⟩
+    · exact ⟨b, r, hmem, by simp [step, h1], by simp [step, h1, popKeep]⟩
+  | submit id b => rw [acceptedBy_submit] at ha; exact absurd (sb id b ha) hm
+  | submitCtx c id b => rw [acceptedBy_submitCtx] at ha; exact absurd (sb id b ha) hm
+  | add b =>
+    rw [acceptedBy_add] at ha
+    rcases addBatchF_cases key cfg s b with ⟨h1, _⟩ | ⟨h1, _⟩ | ⟨h1, _⟩
+    · simp only [step, h1] at hm; exact absurd rfl hm
+    · simp only [step, h1] at hm; exact absurd rfl hm
+    · simp only [step, h1, okList] at ha; simp at ha
+  | restart => simp [Op.plain] at hp
+  | load => simp [Op.plain] at hp
+  | crashSubmit _ _ _ => simp [Op.plain] at hp
+  | crashNext _ _ => simp [Op.plain] at hp
+  | restartMax _ => simp [Op.plain] at hp
+  | fail _ _ => simp [Op.plain] at hp
+
+/-- non-vacuity: calls with dead contexts in a history with a restart; nothing is lost, FIFO -/
+example :
+    let ops : List Op := [.submitCtx .cancelled [] a2, .submit [] a1, .nextCtx .cancelled [], .restart, .nextCtx .expired [], .next []]
+    let r := run realKey {} ops
+    r.outs = [.ok, .ok, .batch a2, .restarted, .batch a1, .empty] ∧ r.acc = [a2, a1] ∧ r.dlv = [a2, a1] ∧ r.st.disk = [] := by
+  decide +kernel
 
 /-! ## 3. the bound, and the datastore never holds anything but pending batches
 (every history: restarts, crashes, duplicates) -/
@@ -249,6 +335,16 @@ theorem C10_admission_bound (key : Batch → Nat) (cfg : Cfg) (s : St) (op : Op)
   | crashNext _ _ => simp [Op.plain] at hp
   | restartMax _ => simp [Op.plain] at hp
   | fail _ _ => simp [Op.plain] at hp
+  | submitCtx c id b =>
+    rcases submitF_cases key cfg s id b with ⟨o, h, ho⟩ | ⟨h, _⟩ | ⟨h, hf, _⟩
+    · rcases ho with rfl | rfl | rfl <;> simp [step, h] at hok
+    · simp [step, h] at hok
+    · simp only [step, h]; exact key_fact b hf
+  | nextCtx c id =>
+    rcases getNextF_cases key cfg s id with ⟨o, h, ho⟩ | ⟨b, r, h, _⟩ | ⟨b, r, h, _⟩
+    · rcases ho with rfl | rfl <;> simp [step, h] at hok
+    · simp [step, h] at hok
+    · simp [step, h] at hok
 
 /-- Reading "the queue bound is respected" as a **capacity** ("never more than the bound in force pending")
 contradicts "accepted batches survive a restart" when the node is restarted with a smaller bound, and it is
